@@ -20,10 +20,16 @@ ChanCfg == [ordered : BOOLEAN, rel : Rel, protocol : {"", "verif-proto"}, text :
 \* the network between the two endpoints: the host's loopback, or an in-process network that delays every
 \* datagram by a random time (datagrams overtake each other) and, with "loss", drops one in twenty
 Nets == {"loopback", "delay", "loss"}
-Space == [nch : 1..3, cfgs : [1..3 -> ChanCfg], sizes : Sizes, count : {5, 40}, side : {"offerer", "answerer"}, net : Nets]
+Space == [nch : 1..3, cfgs : [1..3 -> ChanCfg], sizes : Sizes, count : {5, 40}, side : {"offerer", "answerer"}, net : Nets,
+          slow : BOOLEAN]      \* the receiving application is slow to take the announced channel (registers its handler late)
+\* a reliable ordered channel whose receiving application takes seconds to register its handler
+RelOrd == [ordered |-> TRUE, rel |-> "reliable", protocol |-> "", text |-> TRUE]
+SlowVecs == {[nch |-> 1, cfgs |-> [i \in 1..3 |-> RelOrd], sizes |-> "1k", count |-> 5, side |-> sd, net |-> "loopback", slow |-> TRUE] :
+               sd \in {"offerer", "answerer"}}
 Init == /\ inflight = [c \in Chans |-> <<>>] /\ delivered = [c \in Chans |-> <<>>] /\ nsent = [c \in Chans |-> 0]
         \* a lossy network makes bulk transfers slow (every loss costs a retransmission time-out): few messages there
-        /\ vec \in {v \in RandomSubset(NVec, Space) : v.net = "loss" => v.count = 5}
+        \* ... and a slow receiver costs seconds: only the two vectors of SlowVecs have one
+        /\ vec \in {v \in RandomSubset(NVec, Space) : (v.net = "loss" => v.count = 5) /\ ~v.slow} \cup SlowVecs
 
 Send(c) == /\ nsent[c] < NMsgs
            /\ nsent' = [nsent EXCEPT ![c] = @ + 1]
